@@ -41,7 +41,7 @@ def essential_labels(tier):
 
 @st.composite
 def cases(draw, tier):
-    cfg = tg.Cfg(tier, big_weight=8)
+    cfg = tg.Cfg(tier)
     spec = draw(tg.type_specs(cfg))
     value = c01.special_values(draw, spec, cfg)
     return {
